@@ -1100,6 +1100,7 @@ func TestProp(t *testing.T) {
 	enum = append(enum, g.enumLate()...)
 	enum = append(enum, g.enumOverride()...)
 	enum = append(enum, g.enumEquivalents()...)
+	enum = append(enum, g.enumNonASCII()...)
 	okAll := true
 	for i, c := range enum {
 		if i%shards != shard {
